@@ -520,6 +520,7 @@ def svd_pinv_event(tt_mod, A, ev, objs):
             raise Mismatch('value', 'pinv: differs from the conjugate transpose of the Moore-Penrose pseudoinverse '
                                     'of the unfolding (max abs error %.2e, scale %.2e)' % (
                                         np.max(np.abs(got - exp)), np.max(np.abs(exp))))
+        _scaled_repr_check(A, ow, lambda B: contract(B.pinv(index, threshold=thr).cores).reshape(M.shape), got, 'pinv')
         return [p]
     opt = ev.get('opt') or dict(r=0, p=0, q=1, ol=True, orr=True)
     kw = {}
@@ -567,7 +568,24 @@ def svd_pinv_event(tt_mod, A, ev, objs):
         raise Mismatch('isometry', 'svd: u does not have orthonormal columns')
     if np.max(np.abs(V @ V.conj().T - np.eye(len(s)))) > 1e-9:
         raise Mismatch('isometry', 'svd: v does not have orthonormal rows')
+    if opt['p'] and opt['ol'] and opt['orr']:
+        _scaled_repr_check(A, ow, lambda B: np.asarray(B.svd(index, **kw)[1]), s, 'svd (singular values)')
     return [u, v]
+
+
+def _scaled_repr_check(A, ow, fn, ref, what):
+    """relative cut-offs must not depend on how the scale of the tensor is distributed over the cores: the same train with
+    the first core multiplied by 2^44 and the last one by 2^-44 (exact in floating point) must give the same result"""
+    if ow or A.order < 2 or metadata_problem(A):
+        return
+    B = A.copy()
+    B.cores[0] = B.cores[0] * 2.0 ** 44
+    B.cores[-1] = B.cores[-1] * 2.0 ** -44
+    got = fn(B)
+    ref = np.asarray(ref)
+    if got.shape != ref.shape or np.max(np.abs(got - ref)) > 1e-7 * max(1e-300, float(np.max(np.abs(ref)))):
+        raise Mismatch('value', '%s: a re-scaled representation of the same tensor (first core x 2^44, last core x 2^-44) gives a '
+                                'different result' % what)
 
 
 def _ranks_arg(ev):
